@@ -860,7 +860,7 @@ func mentionsLimit(v ssa.Value, seen map[ssa.Value]bool) bool {
 }
 
 var ruleInspectedGuard = &core.Rule{ID: "R13.2", Min: 2,
-	Doc: "the inspected-bytes result of the scanner entry may be compared with a length only under a dominating truncated-input guard on the detector's own limit; complete input is judged by the parsed length",
+	Doc: "the inspected-bytes result of the scanner entry may be compared with a length only under a dominating truncated-input guard on the detector's own limit; complete input is judged by the parsed length, compared with a length only for equality",
 	Run: func(c *core.Ctx, s *core.Sink) {
 		m := getJSON(c)
 		for _, f := range c.SrcFuncs() {
@@ -886,6 +886,17 @@ var ruleInspectedGuard = &core.Rule{ID: "R13.2", Min: 2,
 						name := []string{"parsed", "inspected"}[ex.Index]
 						key := fmt.Sprintf("%s: use of %s result of %s", core.FName(f), name, callOrdinal(call))
 						if ex.Index == 0 {
+							// compared with a length, it is compared for equality: "parsed to its end", not "parsed at least / at most"
+							if bo, isBo := r2.(*ssa.BinOp); isBo {
+								other := bo.Y
+								if bo.Y == ssa.Value(ex) {
+									other = bo.X
+								}
+								if ln, isLen := other.(*ssa.Call); isLen && core.IsBuiltin(&ln.Call, "len") {
+									s.Check(bo.Op == token.EQL || bo.Op == token.NEQ, key, c.Pos(r2.Pos()), "parsed length == len", fmt.Sprintf("the parsed length is compared with the input length by %s: input that parsed only in part (or a scanner result beyond it) passes for a complete JSON value", bo.Op))
+									continue
+								}
+							}
 							s.OK(key, c.Pos(r2.Pos()), "parsed length")
 							continue
 						}
